@@ -139,8 +139,12 @@ func (d *DB) Shutdown() {
 
 // ---------------------------------------------------------------- item encoding
 
+// Keys have different lengths (5..10 bytes): the order is decided by the fixed-width number, the padding only
+// varies the length (code that recycles buffers across items of different sizes must not depend on equal lengths).
+var keyPad = []string{"", "_", "__", "___", "____", "_____"}
+
 func (d *DB) Item(k, v int) []byte {
-	key := []byte(fmt.Sprintf("k%04d", k))
+	key := []byte(fmt.Sprintf("k%04d", k) + keyPad[((k%6)*7+k/6)%6])
 	if d.Cfg.KV {
 		return nitro.KVToBytes(key, []byte(fmt.Sprintf("v%d", v)))
 	}
